@@ -845,6 +845,52 @@ fn big_cases(run: &mut Runner, variants: &[Variant]) {
             k += 1;
         }
     }
+    // dense vectors of 2^32+2^20 bits: selection across the super-block
+    // boundary (upper counts, inventory_begin, 64-bit inventories)
+    let dense = [
+        "Select9",
+        "SelectSmall<2,9>",
+        "SelectSmall<1,9>",
+        "SelectSmall<1,10>",
+        "SelectSmall<1,11>",
+        "SelectSmall<3,13>",
+        "SelectZeroSmall<2,9>",
+        "SelectZeroSmall<1,9>",
+        "SelectZeroSmall<1,10>",
+        "SelectZeroSmall<1,11>",
+        "SelectZeroSmall<3,13>",
+        "SelectAdapt::new",
+        "SelectAdapt::with_inv(L=13)",
+        "SelectAdaptConst<12,3>",
+        "SelectZeroAdapt::new",
+        "SelectZeroAdaptConst<12,3>",
+        "SelectZeroSmall(SelectSmall(RankSmall<1,11>))",
+        "SelectSmall(SelectZeroSmall(RankSmall<3,13>))",
+    ];
+    for name in dense {
+        let v = pick(name);
+        run.big_case(k, &v.name, "big/dense,len2^32+2^20/tail=fresh", "select", |c| {
+            let len = (1usize << 32) + (1 << 20) + [0usize, 64 * 3, 29][c.rng().random_range(0..3)];
+            let (bv, m) = big_dense(c.rng(), len, false);
+            let dense_ranks = |c: &mut Case, count: usize, at_boundary: usize| -> Vec<usize> {
+                let mut r = select_ranks(c.rng(), count, 20000);
+                // the ranks of the bits around position 2^32
+                for d in 0..6000usize {
+                    r.push(at_boundary.saturating_sub(3000) + d);
+                }
+                r
+            };
+            let ones_before = m.rank(1 << 32);
+            let r1 = dense_ranks(c, m.ones(), ones_before);
+            let r0 = dense_ranks(c, m.zeros(), (1usize << 32) - ones_before);
+            let input = || format!("b = [{}]", m.show());
+            let q = Q { m: &m, input: &input, r1: &r1, r0: &r0 };
+            run_variant(c, &v, bv, &q);
+            c.nontrivial();
+            c.describe(|| input());
+        });
+        k += 1;
+    }
 }
 
 fn main() {
